@@ -221,6 +221,35 @@ pub fn run_impl(c: &Case) -> Vec<(String, String)> {
                 if ok { "1".to_string() } else { "0".to_string() }
             });
             out.push(("lazy".to_string(), lazy));
+            // the returned iterator consumed in other ways than `next()`: fold / for_each / last / nth / count must see the
+            // same values
+            let iterok = guard(|| {
+                let by_next: Vec<u64> = p.evaluate_v(xs.iter().cloned()).map(|y| y.to_bits()).collect();
+                let mut by_fold: Vec<u64> = vec![];
+                p.evaluate_v(xs.iter().cloned()).for_each(|y| by_fold.push(y.to_bits()));
+                let folded: Vec<u64> = p.evaluate_v(xs.iter().cloned()).fold(vec![], |mut v, y| { v.push(y.to_bits()); v });
+                let last = p.evaluate_v(xs.iter().cloned()).last().map(|y| y.to_bits());
+                let count = p.evaluate_v(xs.iter().cloned()).count();
+                let mut it = p.evaluate_v(xs.iter().cloned());
+                let mut by_nth: Vec<u64> = vec![];
+                // alternate nth(0) and nth(1): skipped outputs must still advance the state like evaluated ones
+                let mut k = 0usize;
+                let mut expect_idx: Vec<usize> = vec![];
+                let mut idx = 0usize;
+                loop {
+                    let step = k % 2;
+                    match it.nth(step) {
+                        Some(y) => { by_nth.push(y.to_bits()); expect_idx.push(idx + step); idx += step + 1; }
+                        None => break,
+                    }
+                    k += 1;
+                }
+                let same = |a: &Vec<u64>, b: &Vec<u64>| a.len() == b.len() && a.iter().zip(b).all(|(x, y)| x == y || (f64::from_bits(*x).is_nan() && f64::from_bits(*y).is_nan()));
+                let nth_ok = expect_idx.iter().zip(&by_nth).all(|(i, y)| { let e = by_next[*i]; e == *y || (f64::from_bits(e).is_nan() && f64::from_bits(*y).is_nan()) });
+                let last_ok = match (last, by_next.last()) { (None, None) => true, (Some(a), Some(b)) => a == *b || (f64::from_bits(a).is_nan() && f64::from_bits(*b).is_nan()), _ => false };
+                b(same(&by_next, &by_fold) && same(&by_next, &folded) && last_ok && count == by_next.len() && nth_ok)
+            });
+            out.push(("iterok".to_string(), iterok));
             guard(|| hxs(&p.evaluate_v(xs.iter().cloned()).collect::<Vec<_>>()))
         }),
         "deriv" => with_deriv!(tag, T => guard(|| hxs(&T::from_nums(c.li("p")).derivative().to_nums()))),
@@ -298,12 +327,18 @@ pub fn run_impl(c: &Case) -> Vec<(String, String)> {
             out.push(("deps".to_string(), guard(|| hx(<T as AbsDiffEq>::default_epsilon()))));
             // C17: both relations are "implied by ==" - the implementation's own PartialEq
             out.push(("eq".to_string(), guard(|| b(T::from_nums(c.li("p")) == T::from_nums(c.li("q"))))));
+            // the provided `abs_diff_ne` is the negation; comparing a value with ITSELF (same reference) gives what comparing
+            // it with an equal clone gives
+            out.push(("neok".to_string(), guard(|| { let (p, q) = (T::from_nums(c.li("p")), T::from_nums(c.li("q"))); b(p.abs_diff_ne(&q, c.fl("eps")) == !p.abs_diff_eq(&q, c.fl("eps"))) })));
+            out.push(("aliasok".to_string(), guard(|| { let p = T::from_nums(c.li("p")); let p2 = T::from_nums(c.li("p")); b(p.abs_diff_eq(&p, c.fl("eps")) == p.abs_diff_eq(&p2, c.fl("eps"))) })));
             guard(|| b(T::from_nums(c.li("p")).abs_diff_eq(&T::from_nums(c.li("q")), c.fl("eps"))))
         }),
         "releq" => with_all!(tag, T => {
             out.push(("deps".to_string(), guard(|| hx(<T as AbsDiffEq>::default_epsilon()))));
             out.push(("dmr".to_string(), guard(|| hx(<T as RelativeEq>::default_max_relative()))));
             out.push(("eq".to_string(), guard(|| b(T::from_nums(c.li("p")) == T::from_nums(c.li("q"))))));
+            out.push(("neok".to_string(), guard(|| { let (p, q) = (T::from_nums(c.li("p")), T::from_nums(c.li("q"))); b(p.relative_ne(&q, c.fl("eps"), c.fl("mr")) == !p.relative_eq(&q, c.fl("eps"), c.fl("mr"))) })));
+            out.push(("aliasok".to_string(), guard(|| { let p = T::from_nums(c.li("p")); let p2 = T::from_nums(c.li("p")); b(p.relative_eq(&p, c.fl("eps"), c.fl("mr")) == p.relative_eq(&p2, c.fl("eps"), c.fl("mr"))) })));
             guard(|| b(T::from_nums(c.li("p")).relative_eq(&T::from_nums(c.li("q")), c.fl("eps"), c.fl("mr"))))
         }),
         "pwderiv" => with_deriv!(tag, T => guard(|| show_pw(&pw_from(&pw_to::<T>(c.pw("pw")).derivative())))),
@@ -350,6 +385,8 @@ pub fn run_impl(c: &Case) -> Vec<(String, String)> {
                 if a.to_bits() == s.to_bits() { hx(a) } else { hx(f64::NAN) }
             })));
             out.push(("eq".to_string(), guard(|| b(pw_to::<T>(c.pw("pw")) == pw_to::<T>(c.pw("pw2"))))));
+            out.push(("neok".to_string(), guard(|| { let (p, q) = (pw_to::<T>(c.pw("pw")), pw_to::<T>(c.pw("pw2"))); b(p.abs_diff_ne(&q, c.fl("eps")) == !p.abs_diff_eq(&q, c.fl("eps"))) })));
+            out.push(("aliasok".to_string(), guard(|| { let p = pw_to::<T>(c.pw("pw")); let p2 = pw_to::<T>(c.pw("pw")); b(p.abs_diff_eq(&p, c.fl("eps")) == p.abs_diff_eq(&p2, c.fl("eps"))) })));
             guard(|| b(pw_to::<T>(c.pw("pw")).abs_diff_eq(&pw_to::<T>(c.pw("pw2")), c.fl("eps"))))
         }),
         "pwreleq" => with_fixed!(tag, T => {
@@ -359,6 +396,8 @@ pub fn run_impl(c: &Case) -> Vec<(String, String)> {
                 if a.to_bits() == s.to_bits() { hx(a) } else { hx(f64::NAN) }
             })));
             out.push(("eq".to_string(), guard(|| b(pw_to::<T>(c.pw("pw")) == pw_to::<T>(c.pw("pw2"))))));
+            out.push(("neok".to_string(), guard(|| { let (p, q) = (pw_to::<T>(c.pw("pw")), pw_to::<T>(c.pw("pw2"))); b(p.relative_ne(&q, c.fl("eps"), c.fl("mr")) == !p.relative_eq(&q, c.fl("eps"), c.fl("mr"))) })));
+            out.push(("aliasok".to_string(), guard(|| { let p = pw_to::<T>(c.pw("pw")); let p2 = pw_to::<T>(c.pw("pw")); b(p.relative_eq(&p, c.fl("eps"), c.fl("mr")) == p.relative_eq(&p2, c.fl("eps"), c.fl("mr"))) })));
             guard(|| b(pw_to::<T>(c.pw("pw")).relative_eq(&pw_to::<T>(c.pw("pw2")), c.fl("eps"), c.fl("mr"))))
         }),
         "merge" => {
